@@ -75,6 +75,8 @@ func pickScenario(name string, rng *rand.Rand) scenario {
 	case "unsynced":
 		s.behind = 7
 		s.advances = 2 + rng.Intn(2)
+		s.limit = 4 + rng.Intn(2)
+		s.lpa = 4
 	case "fork": // GALACTICA activates during the run
 		s.galactica = 3
 		s.advances = 3
@@ -549,6 +551,16 @@ func runRecord(scen string, seed int64, mode string) ([]trace.Ev, runStat) {
 		})
 	}
 
+	if sc.name == "unsynced" {
+		// the node is behind: submissions are admitted without evaluation until the pool holds Limit txs
+		for i, x := range r.uni {
+			if i >= sc.limit+3 {
+				break
+			}
+			r.doAdd(97, "remote", x)
+		}
+		r.snapshotEvent("unsynced-prelude")
+	}
 	// phases: concurrent phase(s), each followed by a quiescent check
 	phases := 2
 	for ph := 0; ph < phases; ph++ {
